@@ -114,6 +114,10 @@ func execHD(c Case) string {
 		return obs
 	case "xkey":
 		return xkeyObs(hdkeychain.NewKeyFromString(string(unhx(a[0]))))
+	case "xnew": // xnew <version> <key> <chaincode> <parentFP> <depth> <childnum> <private>: the raw constructor
+		k := hdkeychain.NewExtendedKey(unhx(a[0]), unhx(a[1]), unhx(a[2]), unhx(a[3]), uint8(atoi(a[4])), uint32(atou(a[5])), a[6] == "1")
+		str := k.String()
+		return hs(str) + " " + b2s(k.IsPrivate()) + " " + itoa(int(k.Depth())) + " " + u64s(uint64(k.ParentFingerprint())) + " " + xkeyObs(hdkeychain.NewKeyFromString(str))
 	case "xrt": // derive, serialise, parse back
 		k, obs := hdWalk(netIdx(a[0]), unhx(a[1]), splitOr(a[2], ","))
 		if k == nil {
@@ -245,6 +249,7 @@ func genC04(r *Rng, tier string, emit func(Case)) {
 		e("hd", "depth255N", "1", hx(r.Bytes(16)), strings.Join(deep[:255], ",")+",N,1")
 	} else {
 		e("hd", "depth256", "0", hx(r.Bytes(32)), strings.Join(deep, ","))
+		e("hd", "depth255N", "1", hx(r.Bytes(16)), strings.Join(deep[:255], ",")+",N,1")
 	}
 }
 
@@ -257,6 +262,33 @@ func genC05(r *Rng, tier string, emit func(Case)) {
 	reck := func(p []byte) string {
 		ck := chainhash.DoubleHashB(p)[:4]
 		return base58.Encode(append(append([]byte{}, p...), ck...))
+	}
+	// the raw constructor NewExtendedKey: private scalars given WITHOUT their leading zero bytes (31, 30, 1 bytes; String
+	// must left-pad them to 32), full-length scalars, compressed public keys; registered and unregistered versions
+	for i := 0; i < n/2+4; i++ {
+		net := nets[r.Intn(len(nets))]
+		priv := r.Intn(3) != 0
+		ver := net.HDPrivateKeyID[:]
+		if !priv {
+			ver = net.HDPublicKeyID[:]
+		}
+		if r.Intn(8) == 0 {
+			ver = r.Bytes(4)
+		}
+		var key []byte
+		if priv {
+			key = r.Bytes(32)
+			for z := r.Pick(0, 0, 1, 1, 2, 31); z > 0; z-- {
+				key = key[1:] // a scalar below 2^(8*len): what big.Int.Bytes() yields
+			}
+			if key[0] == 0 {
+				key[0] = 1
+			}
+		} else {
+			key = randPubKey(r).SerializeCompressed()
+		}
+		e("xnew", []string{"pub", "priv"}[map[bool]int{false: 0, true: 1}[priv]]+":len"+itoa(len(key)), hx(ver), hx(key), hx(r.Bytes(32)), hx(r.Bytes(4)),
+			itoa(r.Pick(0, 1, 2, 255)), u64s(uint64(uint32(r.U64()))), b2s(priv))
 	}
 	for i := 0; i < n; i++ {
 		ni := r.Intn(len(nets))
@@ -291,6 +323,14 @@ func genC05(r *Rng, tier string, emit func(Case)) {
 		bit := r.Intn(82 * 8)
 		d2[bit/8] ^= 1 << uint(bit%8)
 		e("xkey", "bitflip", hs(base58.Encode(d2)))
+		// every single bit of the four checksum bytes, once per run
+		if i < 2 {
+			for b := 78 * 8; b < 82*8; b++ {
+				d3 := append([]byte{}, dec...)
+				d3[b/8] ^= 1 << uint(b%8)
+				e("xkey", "ckbit", hs(base58.Encode(d3)))
+			}
+		}
 		// scalar edge values (private form)
 		p = append([]byte{}, payload...)
 		p[45] = 0
